@@ -118,6 +118,16 @@ def check_one(dc, st, raw, start):
         return
     if r[0] != 'ok' or not u or u[0] != 'ok':
         return
+    if start:
+        # the same bytes handed over as an instance of a bytes SUBCLASS (like bisturi.util.SeekableFile): same positions
+        class Buf(bytes):
+            pass
+        ub = ea.impl_unpack(dc.K, Buf(raw), start)
+        if ub[0] != 'ok' or ir.extract(ub[1], dc.P, dc.pkts) != r[1].pv:
+            st.violate('parse %s: a bytes subclass as input is placed differently' % dc.spec['sig'],
+                       '%s.unpack(Buf(%r), %d) -> %r, with plain bytes %r | %s' % (dc.P['name'], raw, start, ub[1] if ub[0] != 'ok' else ir.extract(ub[1], dc.P, dc.pkts), r[1].pv, dc.src.replace('\n', '; ')),
+                       dc.case(raw=raw, start=start), dc.snippet('class Buf(bytes): pass\nprint(%s.unpack(Buf(%r), %d))' % (dc.P['name'], raw, start)))
+            return
     st.add('states', (dc.spec['tag'], start, tuple(sorted((k, v) for k, v in r[1].starts.items()))[:6]))
     srcline = dc.src.replace('\n', '; ')
     call = '%s.unpack(%r%s).pack()' % (dc.P['name'], raw, (', %d' % start) if start else '')
